@@ -26,3 +26,73 @@ fam("fe_negate", FE, "h_fe_negate", ["secp256k1_fe_impl_negate_unchecked"])
 fam("fe_add", FE, "h_fe_add", ["secp256k1_fe_impl_add"])
 fam("fe_mul_int", FE, "h_fe_mul_int", ["secp256k1_fe_impl_mul_int_unchecked"])
 fam("fe_half", FE, "h_fe_half", ["secp256k1_fe_impl_half"])
+
+SC = "harness/C05/arith_scalar.c"
+SCV = ("W128", "W128V", "W128S", "W64", "W64V")
+fam("sc_add", SC, "h_sc_add", ["secp256k1_scalar_add", "secp256k1_scalar_reduce", "secp256k1_scalar_check_overflow"], variants=SCV)
+fam("sc_neg", SC, "h_sc_neg", ["secp256k1_scalar_negate", "secp256k1_scalar_cond_negate", "secp256k1_scalar_half", "secp256k1_scalar_is_high"], variants=SCV)
+fam("sc_b32", SC, "h_sc_b32", ["secp256k1_scalar_set_b32", "secp256k1_scalar_get_b32", "secp256k1_scalar_set_b32_seckey"], variants=SCV)
+fam("sc_small", SC, "h_sc_small", ["secp256k1_scalar_set_int", "secp256k1_scalar_set_u64", "secp256k1_scalar_is_zero", "secp256k1_scalar_is_one", "secp256k1_scalar_is_even", "secp256k1_scalar_eq", "secp256k1_scalar_cmov", "secp256k1_scalar_split_128", "secp256k1_scalar_clear"], variants=SCV)
+fam("sc_bits", SC, "h_sc_bits", ["secp256k1_scalar_get_bits_limb32", "secp256k1_scalar_get_bits_var", "secp256k1_scalar_cadd_bit"], variants=SCV)
+
+I128 = "harness/C05/arith_int128.c"
+I128F = ["secp256k1_u128_load", "secp256k1_u128_from_u64", "secp256k1_u128_to_u64", "secp256k1_u128_hi_u64", "secp256k1_u128_accum_u64", "secp256k1_u128_rshift", "secp256k1_u128_check_bits"]
+I128G = ["secp256k1_i128_load", "secp256k1_i128_from_i64", "secp256k1_i128_to_i64", "secp256k1_i128_to_u64", "secp256k1_i128_eq_var", "secp256k1_i128_check_pow2", "secp256k1_i128_rshift"]
+fam("u128", I128, "h_u128", I128F, variants=("W128", "W128S", "W128SV"))
+fam("i128", I128, "h_i128", I128G, variants=("W128", "W128S", "W128SV"))
+UNITS.append(U("C05.u128_mul_bounded.W128S", ["C05"], I128, "h_u128_mul_bounded", cfg="W128S", tier="thorough", bounded="a < 2^32",
+               functions=["secp256k1_u128_mul", "secp256k1_u128_accum_mul", "secp256k1_umul128"], timeout=900, replay=False))
+
+UT = "harness/C05/arith_util.c"
+fam("util_bits", UT, "h_util_bits", ["secp256k1_clz64_var", "secp256k1_ctz64_var", "secp256k1_ctz64_var_debruijn", "secp256k1_ctz32_var", "secp256k1_ctz32_var_debruijn", "secp256k1_rotr32", "secp256k1_sign_and_abs64", "secp256k1_int_cmov"], variants=("W128", "W128V"))
+fam("util_endian", UT, "h_util_endian", ["secp256k1_read_be32", "secp256k1_read_be64", "secp256k1_write_be32", "secp256k1_write_be64"], variants=("W128",))
+UTL = ["secp256k1_memczero", "secp256k1_is_zero_array", "secp256k1_memcmp_var"]
+# any length: needs hooks/C05_arith_util_loops.diff in the tree (loop contracts inside the three loops)
+UNITS.append(U("C05.util_loops", ["C05"], UT, "h_util_loops", defs=["UTIL_LC=1"], loops=True, functions=UTL, timeout=600, replay=False,
+               note="loop contracts via SECP256K1_VERIF_LOOP (hooks/C05_arith_util_loops.diff)"))
+# bounded stand-in on the unchanged tree
+UNITS.append(U("C05.util_loops_b24", ["C05"], UT, "h_util_loops", unwind=26, bounded="len<=24", functions=UTL, timeout=600, replay=False))
+
+# ---- part (b): multiplication-bearing code with -DVERIFY, 64x64 multiplier = uninterpreted function
+FM = "harness/C05/arith_femul.c"
+UF = ["secp256k1_u128_mul", "secp256k1_u128_accum_mul"]
+UNITS.append(U("C05.fe_mul_inner", ["C05"], FM, "h_fe_mul_inner", verify=True, replace=UF, assumed=[], functions=["secp256k1_fe_mul_inner"],
+               timeout=1500, tier="quick", min_obl=300, replay=False, note="UF multiplier; congruence r = a b mod p is assumed residue"))
+UNITS.append(U("C05.fe_sqr_inner", ["C05"], FM, "h_fe_sqr_inner", verify=True, replace=UF, assumed=[], functions=["secp256k1_fe_sqr_inner"],
+               timeout=1500, tier="quick", min_obl=200, replay=False, note="UF multiplier; congruence r = a^2 mod p is assumed residue"))
+UNITS.append(U("C05.umul_axioms", ["C05"], FM, "h_umul_axioms", functions=UF, timeout=1800, tier="thorough", replay=False,
+               note="bit-length axioms (B) of the UF multiplier contract, on the real multiplier"))
+UNITS.append(U("C05.fe_mul_inner.W128S", ["C05"], FM, "h_fe_mul_inner", cfg="W128S", verify=True, replace=UF, functions=["secp256k1_fe_mul_inner"], timeout=3000, tier="thorough", replay=False))
+UNITS.append(U("C05.fe_sqr_inner.W128S", ["C05"], FM, "h_fe_sqr_inner", cfg="W128S", verify=True, replace=UF, functions=["secp256k1_fe_sqr_inner"], timeout=3000, tier="thorough", replay=False))
+UNITS.append(U("C05.fe_mul_inner.W64", ["C05"], FM, "h_fe_mul_inner", cfg="W64", verify=True, functions=["secp256k1_fe_mul_inner"], timeout=3600, tier="thorough", replay=False,
+               note="10x26: native 32x32->64 products, no UF"))
+UNITS.append(U("C05.fe_sqr_inner.W64", ["C05"], FM, "h_fe_sqr_inner", cfg="W64", verify=True, functions=["secp256k1_fe_sqr_inner"], timeout=3600, tier="thorough", replay=False))
+
+# ---- part (b): group_impl.h magnitude bookkeeping with -DVERIFY
+GR = "harness/C05/arith_group.c"
+GREP = ["secp256k1_fe_mul", "secp256k1_fe_sqr", "secp256k1_fe_inv", "secp256k1_fe_inv_var", "secp256k1_fe_sqrt"]
+GASS = ["secp256k1_fe_inv", "secp256k1_fe_inv_var", "secp256k1_fe_sqrt"]   # fe_mul/fe_sqr magnitude contracts are proved by C05.fe_mul_contract / fe_sqr_contract
+def grp(name, entry, functions, tier="quick", timeout=900, cfgs=("W128",), **kw):
+    for cfg in cfgs:
+        UNITS.append(U("C05." + name + ("" if cfg == "W128" else "." + cfg), ["C05"], GR, entry, cfg=cfg, verify=True, replace=GREP, assumed=GASS,
+                       functions=functions, tier=tier if cfg == "W128" else "thorough", timeout=timeout, replay=False, **kw))
+grp("gej_double", "h_gej_double", ["secp256k1_gej_double", "secp256k1_gej_double_var"], cfgs=("W128", "W64"))
+grp("gej_add_var", "h_gej_add_var", ["secp256k1_gej_add_var"], cfgs=("W128", "W64"))
+grp("gej_add_ge_var", "h_gej_add_ge_var", ["secp256k1_gej_add_ge_var"], cfgs=("W128", "W64"))
+grp("gej_add_zinv_var", "h_gej_add_zinv_var", ["secp256k1_gej_add_zinv_var"], cfgs=("W128", "W64"))
+grp("gej_add_ge", "h_gej_add_ge", ["secp256k1_gej_add_ge"], cfgs=("W128", "W64"))
+grp("group_small", "h_group_small", ["secp256k1_ge_neg", "secp256k1_gej_neg", "secp256k1_gej_set_ge", "secp256k1_gej_set_infinity", "secp256k1_ge_set_infinity", "secp256k1_gej_cmov", "secp256k1_ge_set_xy", "secp256k1_ge_mul_lambda"], cfgs=("W128", "W64"))
+grp("ge_set_gej", "h_ge_set_gej", ["secp256k1_ge_set_gej", "secp256k1_ge_set_gej_var", "secp256k1_ge_set_gej_zinv", "secp256k1_ge_set_ge_zinv", "secp256k1_gej_rescale"], cfgs=("W128", "W64"))
+grp("ge_storage", "h_ge_storage", ["secp256k1_ge_to_storage", "secp256k1_ge_from_storage", "secp256k1_ge_storage_cmov"], cfgs=("W128", "W64"))
+grp("ge_predicates", "h_ge_predicates", ["secp256k1_ge_is_valid_var", "secp256k1_ge_eq_var", "secp256k1_gej_eq_var", "secp256k1_gej_eq_ge_var", "secp256k1_gej_eq_x_var", "secp256k1_ge_set_xquad", "secp256k1_ge_set_xo_var", "secp256k1_fe_equal"], cfgs=("W128", "W64"))
+
+# ---- part (b): scalar 512-bit product / reduction carry macros
+SM = "harness/C05/arith_scmul.c"
+UNITS.append(U("C05.sc_mul_512", ["C05"], SM, "h_sc_mul_512", verify=True, replace=UF, functions=["secp256k1_scalar_mul_512", "secp256k1_scalar_sqr_512"],
+               tier="thorough", timeout=1800, replay=False, note="UF multiplier bounded by (2^64-1)^2; product value assumed"))
+UNITS.append(U("C05.sc_reduce_512", ["C05"], SM, "h_sc_reduce_512", verify=True, functions=["secp256k1_scalar_reduce_512"],
+               tier="thorough", timeout=3600, replay=False, note="real multiplications by the constant limbs of 2^256-n"))
+UNITS.append(U("C05.sc_mul_512.W64", ["C05"], SM, "h_sc_mul_512", cfg="W64", verify=True, functions=["secp256k1_scalar_mul_512", "secp256k1_scalar_sqr_512"],
+               tier="thorough", timeout=3600, replay=False, note="8x32: native 32x32->64 products"))
+UNITS.append(U("C05.sc_reduce_512.W64", ["C05"], SM, "h_sc_reduce_512", cfg="W64", verify=True, functions=["secp256k1_scalar_reduce_512"],
+               tier="thorough", timeout=3600, replay=False))
